@@ -20,7 +20,7 @@ LEVEL = "model_checking"
 RULE = (
     "all semantic maps of G1(8,2), G2(3,3,2), G2(2,4,2), G3(2,2,2,2), G3(1,2,3,2), G3(2,1,3,2), G3(2,3,1,2), G3(1,3,3,1) x backend in {default,cc3d,scipy} (partner = itself, uint8); "
     "full product backend x partner in {empty, itself, fixed other} x dtype in {uint8,int8,int16,int64,uint64} on G1(6,2), G2(2,3,2), G3(2,2,2,1) (thorough: + G3(2,2,3,2), G2(3,4,1), G2(3,3,3) x uint8); "
-    "label-value family on the same small scope: semantic labels {255,256}, {65535,65536}, {2^32-2, 2^32-1}, {127,1} in int8..uint64 x backends; component-count family: 1-D/2-D maps with n in {254,255,256,257,65535,65536} isolated components x semantic labels {1, 200} x backends; every map of G1(4,{-1,0,1}) with a negative value x signed dtypes must be rejected. "
+    "memory layouts (Fortran / negative strides / strided views, same and mixed) on the 2-D/3-D small scopes; label-value family on the same small scope: semantic labels {255,256}, {65535,65536}, {2^32-2, 2^32-1}, {127,1} in int8..uint64 x backends; component-count family: 1-D/2-D maps with n in {254,255,256,257,65535,65536} isolated components x semantic labels {1, 200} x backends; every map of G1(4,{-1,0,1}) with a negative value x signed dtypes must be rejected. "
     "non-trivial = the three backend choices do not all give the same partition (diagonal contact or touching labels); distinct by map"
 )
 ASSUMPTIONS = ["connectivity definitions: cc3d = full (8/26) per semantic label, scipy = face (4/6) on the binary foreground, default = cc3d iff ndim >= 3"]
@@ -159,18 +159,33 @@ def run_case(case, acc):
         acc.nontriv(shape, k, i)
     if acc.evaluations % 2503 == 1:
         acc.sample({"semantic_map": base.tolist(), "components_cc3d": len(parts["cc3d"]), "components_scipy": len(parts["scipy"])})
+    other = sc.grid((i * 7 + 3) % sc.grid_count(shape, k), shape, k, dtype=np.int64)
     if kind == "big":
         combos = [(b, "self", "uint8") for b in BACKENDS]
     else:
         combos = list(itertools.product(BACKENDS, ("empty", "self", "other"), DTS))
         # semantic label VALUES around the dtype-selection boundaries (the approximator first casts to the smallest fitting uint)
         if "combo" not in case:
+            # memory layouts of the two arrays (Fortran order, negative strides, strided views; same and mixed)
+            if base.ndim >= 2:
+                for lp, lr in (("F", "F"), ("F", "C"), ("rev", "strided"), ("strided", "F")):
+                    for backend in BACKENDS:
+                        semu = base.astype(np.uint8)
+                        P, R = sc.apply_layout(semu, lp), sc.apply_layout(other.astype(np.uint8), lr)
+                        c3 = {**case, "layout": [lp, lr], "backend": backend}
+                        tg = f"backend={backend} layouts pred={lp} ref={lr} map={base.tolist()}"
+                        o = _approx(acc, c3, tg, P, R, backend)
+                        if o is not None:
+                            acc.state("ly", backend, lp, lr, np.asarray(o.prediction_arr))
+                            g = partition_check(acc, c3, tg, semu, o.prediction_arr, o.n_prediction_instance, backend, "pred")
+                            g = partition_check(acc, c3, tg, other.astype(np.uint8), o.reference_arr, o.n_reference_instance, backend, "ref") and g
+                            if g:
+                                acc.ok()
             for lm, dt in (({1: 255, 2: 256}, "int32"), ({1: 256, 2: 255}, "uint16"), ({1: 65535, 2: 65536}, "int64"), ({1: 65536, 2: 1}, "uint32"), ({1: 4294967294, 2: 4294967295}, "uint64"), ({1: 127, 2: 1}, "int8")):
                 for backend in BACKENDS:
                     _label_value_case(acc, case, base, lm, dt, backend, parts)
     if "combo" in case:
         combos = [tuple(case["combo"])]
-    other = sc.grid((i * 7 + 3) % sc.grid_count(shape, k), shape, k, dtype=np.int64)
     for backend, partner, dt in combos:
         if k > np.iinfo(dt).max:
             continue
